@@ -441,9 +441,27 @@ where
     LM: MatchLiteral,
     <T as FromStr>::Err: Debug,
 {
+    // An operator between two numbers may only be applied ahead of its turn if that merely
+    // regroups a chain of one and the same commutative operator. Hence, the closest operator
+    // to the left that is not applied earlier anyway must not be a different operator of equal
+    // priority.
+    let regrouping_is_valid = |bin_op_node_idx: usize| {
+        let op = &bin_ops[bin_op_node_idx];
+        let left_op = bin_ops[..bin_op_node_idx]
+            .iter()
+            .rev()
+            .find(|left_op| left_op.op.prio <= op.op.prio);
+        match left_op {
+            Some(left_op) => left_op.op.prio < op.op.prio || left_op.idx == op.idx,
+            None => true,
+        }
+    };
     let prio_increase =
         |bin_op_node_idx: usize| match (&nodes[bin_op_node_idx], &nodes[bin_op_node_idx + 1]) {
-            (DeepNode::Num(_), DeepNode::Num(_)) if bin_ops[bin_op_node_idx].op.is_commutative => {
+            (DeepNode::Num(_), DeepNode::Num(_))
+                if bin_ops[bin_op_node_idx].op.is_commutative
+                    && regrouping_is_valid(bin_op_node_idx) =>
+            {
                 let prio_inc = 5;
                 &bin_ops[bin_op_node_idx].op.prio * 10 + prio_inc
             }
